@@ -414,6 +414,53 @@ namespace io {
         }
     };
 
+    // N2: loops on "OK without output" but never asks whether input is left: a truncated buffer spins forever instead of throwing
+    class BadLoopGzipBufferDecompressor final : public Decompressor {
+        const char* m_buffer;
+        z_stream m_zstream;
+
+    public:
+        BadLoopGzipBufferDecompressor(const char* buffer, const std::size_t size) : m_buffer(buffer), m_zstream() {
+            m_zstream.next_in = reinterpret_cast<unsigned char*>(const_cast<char*>(buffer));
+            m_zstream.avail_in = static_cast<unsigned int>(size);
+            const int result = inflateInit2(&m_zstream, MAX_WBITS | 32);
+            if (result != Z_OK) {
+                throw gzip_error{"init failed", result};
+            }
+        }
+
+        std::string read() override {
+            std::string output;
+            while (m_buffer) {
+                const std::size_t buffer_size = 10240;
+                output.resize(buffer_size);
+                m_zstream.next_out = reinterpret_cast<unsigned char*>(&*output.begin());
+                m_zstream.avail_out = buffer_size;
+                const int result = inflate(&m_zstream, Z_SYNC_FLUSH);
+                if (result != Z_OK && result != Z_STREAM_END) {
+                    m_buffer = nullptr;
+                    throw gzip_error{"inflate failed", result};
+                }
+                if (result == Z_STREAM_END) {
+                    if (m_zstream.avail_in == 0) {
+                        m_buffer = nullptr;
+                    } else if (inflateReset(&m_zstream) != Z_OK) {
+                        throw gzip_error{"reset failed"};
+                    }
+                }
+                output.resize(static_cast<std::size_t>(m_zstream.next_out - reinterpret_cast<const unsigned char*>(output.data())));
+                if (!output.empty()) {
+                    break;
+                }
+            }
+            return output;
+        }
+
+        void close() override {
+            inflateEnd(&m_zstream);
+        }
+    };
+
     // X1 / X2 / N1: single stream only, BZ_OK with zero output returns an empty chunk (today's shape of the buffer decompressors)
     class BadBzip2BufferDecompressor final : public Decompressor {
         const char* m_buffer;
@@ -517,6 +564,8 @@ void c09_positive_driver(FILE* f, const char* p, std::size_t n) {
     osmium::io::BadBzip2Decompressor d{f};
     osmium::io::BadReopenBzip2Decompressor e{f};
     osmium::io::BadBzip2BufferDecompressor g{p, n};
+    osmium::io::BadLoopGzipBufferDecompressor l{p, n};
+    (void)l.read();
     osmium::io::BadHelperBzip2Decompressor h{f};
     (void)h.read();
     osmium::io::detail::string_queue q;
